@@ -61,7 +61,7 @@ INERT_METHODS = {
     # argparse / misc
     "add_argument", "add_mutually_exclusive_group", "parse_args", "error", "print_help", "with_traceback", "visit", "generic_visit",
     "__new__", "__init__", "__init_subclass__", "__str__", "__repr__", "__len__", "__iter__", "__getitem__", "__contains__", "__eq__", "__hash__",
-    "mro", "__subclasses__", "most_common", "elements",
+    "mro", "__subclasses__", "most_common", "elements", "pack", "unpack", "pack_into", "unpack_from", "iter_unpack",
 }
 FORBIDDEN_METHODS = {
     "system", "popen", "communicate", "connect", "send", "sendall", "sendto", "recv", "urlopen", "urlretrieve", "extract", "extractall",
